@@ -124,6 +124,29 @@ def cases(rng, tier, stats):
             out.append(prog_case("split-after-collection", prog, info={"garbage": garbage, "kept": keep}))
             nh += 1
     stats["split_after_collection"] = nh
+    # `_স্ট্রিং-জয়েন` accepts a list of STRINGS only: every list of 0..3 elements over one value of each kind (so a non-string
+    # element in every position, also as the only element), the list given as a literal, through a variable, a record field
+    # and a function result; the result's type is probed too
+    kinds = [G.s("ক"), G.s(""), G.num(7), G.b(False), G.lst(G.s("ভ")), G.rec((G.s("k"), G.s("v")))]
+    nj = 0
+    for ln in range(0, 4):
+        for elems in itertools.product(kinds, repeat=ln):
+            if ln == 3 and tier != "thorough" and (nj % 3):
+                nj += 1
+                continue
+            lit = G.lst(*elems)
+            route = nj % 4
+            if route == 0:
+                prog = [("print", G.call("_স্ট্রিং-জয়েন", lit, G.s("-")))]
+            elif route == 1:
+                prog = [("decl", "তা", lit), ("decl", "ফল", G.call("_স্ট্রিং-জয়েন", G.var("তা"), G.s("-"))), ("print", G.call("_টাইপ", G.var("ফল"))), ("print", G.var("ফল"))]
+            elif route == 2:
+                prog = [("decl", "ন", G.rec((G.s("সব"), lit))), ("print", G.call("_স্ট্রিং-জয়েন", G.idx(G.var("ন"), G.s("সব")), G.s("-")))]
+            else:
+                prog = [("func", "দাও", [], [("return", lit)]), ("decl", "ফল", G.call("_স্ট্রিং-জয়েন", G.call("দাও"), G.s("-"))), ("print", G.call("_টাইপ", G.var("ফল"))), ("print", G.var("ফল"))]
+            out.append(prog_case("join-element-kinds", [("print", G.s("আগে"))] + prog + [("print", G.s("পরে"))], info={"elements": ln, "route": route}))
+            nj += 1
+    stats["join_element_kinds"] = nj
     # every argument tuple of length 0..3 over one value of each kind: exactly the documented shapes are accepted
     pool = [G.s("a,b"), G.s(","), G.num(2), G.lst(G.s("a"), G.s("b")), G.b(True), G.rec((G.s("k"), G.num(1)))]
     nt = 0
